@@ -778,6 +778,29 @@ func mayBeNil(v ssa.Value, depth int) bool {
 		return mayBeNil(x.X, depth+1)
 	case *ssa.Alloc:
 		return false
+	case *ssa.Call:
+		// constructors of fresh errors never return nil
+		if isPkgFunc(&x.Call, "errors", "New") || isPkgFunc(&x.Call, "fmt", "Errorf") {
+			return false
+		}
+	case *ssa.UnOp:
+		// named result read back after `*result = v; rundefers`: use the last store in the same block
+		if x.Op == token.MUL {
+			if al, ok := x.X.(*ssa.Alloc); ok {
+				var last ssa.Value
+				for _, in := range x.Block().Instrs {
+					if in == ssa.Instruction(x) {
+						break
+					}
+					if st, ok := in.(*ssa.Store); ok && st.Addr == ssa.Value(al) {
+						last = st.Val
+					}
+				}
+				if last != nil {
+					return mayBeNil(last, depth+1)
+				}
+			}
+		}
 	}
 	return true // unknown: calls, loads ...
 }
@@ -873,8 +896,7 @@ func rulePoison(p *Prog, r *RuleResult) {
 					if len(x.Results) == 0 {
 						continue
 					}
-					ev := x.Results[len(x.Results)-1]
-					if mayBeNil(ev, 0) && !edgeDominates(s.parent, liveEdge, blk) {
+					if retMayBeNil(x, len(x.Results)-1) && !edgeDominates(s.parent, liveEdge, blk) {
 						// returns that precede the test on an error path are fine only if non-nil; this one may be nil
 						good = false
 						why = fmt.Sprintf("return at %s may report success without passing the cancel test", p.IPos(x))
@@ -922,4 +944,38 @@ func rulePoison(p *Prog, r *RuleResult) {
 		r.ok(pname+" returns the first task error", p.Pos(s.parent.Pos()))
 	}
 	r.floor(1, r.Obligations, "poison obligations")
+}
+
+// retMayBeNil: the idx-th operand of ret may be nil, taking into account named results written just before the
+// return and nil tests that dominate the return.
+func retMayBeNil(ret *ssa.Return, idx int) bool {
+	v := ret.Results[idx]
+	if u, ok := v.(*ssa.UnOp); ok && u.Op == token.MUL {
+		if al, ok := u.X.(*ssa.Alloc); ok {
+			for _, in := range u.Block().Instrs {
+				if in == ssa.Instruction(u) {
+					break
+				}
+				if st, ok := in.(*ssa.Store); ok && st.Addr == ssa.Value(al) {
+					v = st.Val
+				}
+			}
+		}
+	}
+	if !mayBeNil(v, 0) {
+		return false
+	}
+	// dominated by the non-nil edge of a test of the same value?
+	f := ret.Parent()
+	cands := map[ssa.Value]bool{v: true, stripConv(v): true}
+	for _, b := range f.Blocks {
+		if ifi := blockIf(b); ifi != nil {
+			if x, succ, ok := nilTest(ifi.Cond); ok && cands[x] {
+				if edgeDominates(f, edge{b, succ}, ret.Block()) {
+					return false
+				}
+			}
+		}
+	}
+	return true
 }
